@@ -4,8 +4,9 @@
      go_scan   sdk/go/manifest/manifest.go      sendFileSegmentIterByName, loop body
      py_first  sdk/python/arvados/_ranges.py    first_block (as repaired by commit 740aa3f)
      py_lar    sdk/python/arvados/_ranges.py    locators_and_ranges (limit=None)
-   Integer widths: the Go manifest package computes pos+len in uint64 (wraps, [w64]); the collection filesystem
-   computes offset+length in int64 (wraps negative, [fs_end] = None).  Sums of block sizes are assumed < 2^63
+   Integer widths: the Go manifest package computes pos+len in uint64 (wraps, [w64]; its parser rejects a wrapped sum);
+   the collection filesystem computes offset+length in int64 (wraps negative, [fs_end] = None; its loader rejects
+   that, commit 44931b6, so [fs_loop] is only ever run with Some end).  Sums of block sizes are assumed < 2^63
    (callers check [small_total]); Python integers are unbounded. *)
 From Coq Require Import NArith List Bool.
 From AV Require Import model.C10_manifest.
@@ -90,8 +91,10 @@ Fixpoint go_scan (fuel : nat) (offs : list N) (nblocks i : nat) (wantPos wantEnd
       end
   end.
 Definition w64 (x : N) : N := x mod 2 ^ 64.
-(* parseManifestStream: pft.SegPos+pft.SegLen > streamoffset  (uint64) *)
-Definition go_range_ok (sizes : list N) (pos len : N) : bool := w64 (pos + len) <=? total sizes.
+(* parseManifestStream (as repaired by commit b3717b9):
+   !(pft.SegPos+pft.SegLen > streamoffset || pft.SegPos+pft.SegLen < pft.SegPos)   (uint64) *)
+Definition go_range_ok (sizes : list N) (pos len : N) : bool :=
+  (w64 (pos + len) <=? total sizes) && negb (w64 (pos + len) <? pos).
 (* the segments sent for one file token with len <> 0 *)
 Definition go_map (sizes : list N) (pos len : N) : gres :=
   match go_first (offsets sizes) pos with
